@@ -107,4 +107,58 @@ theorem embed_rt (s : Str) (h : '\r' ∉ s) : evalGo ('`' :: escBacktick s ++ ['
   simp only [evalGo, List.cons_append, evalRaw]
   exact raw_roundtrip s h
 
+theorem escBOM_no_cr : ∀ s : Str, '\r' ∉ s → '\r' ∉ escBOM s
+  | [], _ => by simp [escBOM]
+  | c :: r, h => by
+    have hr : '\r' ∉ r := fun e => h (List.mem_cons_of_mem _ e)
+    have hc : c ≠ '\r' := fun e => h (e ▸ List.mem_cons_self)
+    unfold escBOM
+    split
+    · intro hm
+      simp only [List.mem_cons] at hm
+      rcases hm with e | e | e | e | e | e | e
+      · exact absurd e (by decide)
+      · exact absurd e (by decide)
+      · exact absurd e (by decide)
+      · exact absurd e (by decide)
+      · exact absurd e (by decide)
+      · exact absurd e (by decide)
+      · exact escBOM_no_cr r hr e
+    · intro hm
+      rcases List.mem_cons.mp hm with e | e
+      · exact hc e.symm
+      · exact escBOM_no_cr r hr e
+
+theorem escBOM_no_bom : ∀ s : Str, '\uFEFF' ∉ escBOM s
+  | [] => by simp [escBOM]
+  | c :: r => by
+    unfold escBOM
+    split
+    · intro hm
+      simp only [List.mem_cons] at hm
+      rcases hm with e | e | e | e | e | e | e
+      · exact absurd e (by decide)
+      · exact absurd e (by decide)
+      · exact absurd e (by decide)
+      · exact absurd e (by decide)
+      · exact absurd e (by decide)
+      · exact absurd e (by decide)
+      · exact escBOM_no_bom r e
+    · rename_i hc
+      intro hm
+      rcases List.mem_cons.mp hm with e | e
+      · exact hc e.symm
+      · exact escBOM_no_bom r e
+
+theorem escBOM_id : ∀ s : Str, '\uFEFF' ∉ s → escBOM s = s
+  | [], _ => rfl
+  | c :: r, h => by
+    have hr : '\uFEFF' ∉ r := fun e => h (List.mem_cons_of_mem _ e)
+    have hc : c ≠ '\uFEFF' := fun e => h (e ▸ List.mem_cons_self)
+    simp [escBOM, hc, escBOM_id r hr]
+
+/-- the whole embedding: the Go expression evaluates to the text with byte order marks written as JSON escapes -/
+theorem readable_rt (s : Str) (h : '\r' ∉ s) : evalGo ('`' :: readable s ++ ['`']) = some (escBOM s) :=
+  embed_rt (escBOM s) (escBOM_no_cr s h)
+
 end Gs.Text
